@@ -228,8 +228,13 @@ func (w *worker) fresh() {
 	for i := 0; i < maxNodes; i++ {
 		cl := &client{idx: i + 1, node: uint64(i + 1)}
 		w.cls = append(w.cls, cl)
-		w.mgrs = append(w.mgrs, table.NewManager(nil, nil, cl, table.Config{NodeID: uint64(i + 1)}))
+		w.mgrs = append(w.mgrs, table.NewManager(nil, nil, cl, mgrConfig(uint64(i + 1))))
 	}
+}
+
+// mgrConfig: only NodeID matters for Lease/Return; the cache sizes just have to be accepted by pebble.
+func mgrConfig(node uint64) table.Config {
+	return table.Config{NodeID: node, Table: table.TableConfig{TableCacheSize: 64, BlockCacheSize: 1 << 20}}
 }
 
 const tableName = "t"
